@@ -19,6 +19,14 @@ CHECKS = {
   text="Proof (for all argument values, no bound) that the run-time functions every slice expression, string slice and make([]T) is lowered to panic exactly when Go mandates it, before any heap write, and with the mandated message; obligations generated from /repo's current source on every run.",
   note="Decided: NewSlice3 (all 2-/3-index slice forms funnel here), StringSlice, MakeSlice (+ messages), send on / close of a closed channel and close of a nil channel (ChanSend, ChanTrySend, ChanClose; decided at the commit point under the channel lock). Not decided here: nil-dereference via SIGSEGV handler, recover-ability (C04), failed type assertion CFG, placement of checks by the compiler, send on a nil channel (Go spec: blocks forever), nil-map clause (see DESIGN.md). Trusted: go/ssa+go/types, SMT solvers, runtime/math.MulUintptr, allocator contract. Integers are 64-bit bit-vectors (W=64 only).",
   ref="DESIGN.md §3 C03"),
+"C06": dict(
+  text="Proof of the sub-claims a hash map rests on and that are carried by small functions: hash/equality coherence for float and complex keys (equal keys - including +0/-0 - hash alike; proved with the SMT floating-point theory over the IEEE bit patterns, as lemmas over the verified postconditions of f32hash/f64hash/c64hash/c128hash and f32equal..c128equal), strhash hashes exactly the string's bytes, an unhashable dynamic key type makes interhash/nilinterhash panic and only then, efaceeq/ifaceeq (nil, direct-interface and uncomparable cases), and the representation helpers tophash (>= minTopHash), bucketShift/bucketMask, isEmpty, evacuated, overLoadFactor (never for <= 8 entries), tooManyOverflowBuckets.",
+  note="NOT decided: the finite-map refinement of mapassign/mapaccess/mapdelete/evacuate/mapiternext (1700 lines of bucket arithmetic over raw memory), iteration order clauses, typehash/structequal/arrayequal recursion, nil-map read/write behaviour. Trusted: memhash is a function of seed and bytes, fastrand, calls through type-descriptor function values are pure.",
+  ref="DESIGN.md §3 C06"),
+"C07": dict(
+  text="Proof of the run-time side of interface satisfaction and interface equality for all method tables: Implements(T,V) (both the interface and the concrete-type scan) returns true exactly when every method of T has a method of V with equal name and equal type descriptor, given strictly sorted tables (loop invariants with forall/exists); findMethod returns the interface-call entry of exactly the matching method; EfaceEqual (nil, different types, direct payload, uncomparable => panic).",
+  note="ASSUMED, not proved: compiler-emitted method tables are strictly sorted by one total order on names (string order for findMethod). NOT decided: injectivity of the type-naming scheme (ssa/abi structHash/TypeName) modulo types.Identical incl. struct tags, linker merging, method dispatch through itabs; abi.Type.Uncommon/Methods/Kind are trusted contracts; names compared through an uninterpreted order-embedding of string contents.",
+  ref="DESIGN.md §3 C07"),
 "C10": dict(
   text="Proof by monitor (lock-invariant) reasoning, valid under every interleaving and with spurious wake-ups: for buffered channels every critical section of ChanSend/ChanTrySend/ChanRecv/chanTryRecv/ChanClose/ChanLen preserves the ring-buffer invariant (0<=len<=cap, 0<=getp<cap, fixed buffer), a successful send writes exactly the slot (getp+len) mod cap with the sender's bytes and increments len, a successful receive delivers slot getp, advances getp and decrements len, nothing else in the buffer changes, a receive yields ok=false only when closed and empty; protected fields are only touched under the lock.",
   note="Not decided: unbuffered rendezvous protocol, Select/TrySelect commitment, every liveness clause (wake-ups, no avoidable deadlock), the lemma from ring-buffer steps to the abstract FIFO sequence (argued in DESIGN.md). Trusted: pthread mutual exclusion, memcpy, notifyOps touches only selectOp state, eltSize consistent across calls (< 2^16, cap < 2^28), chanbuf(p) fixed by NewChan.",
